@@ -101,10 +101,79 @@ structure SwitchSim (M : Maps) (ns : Array NodeM) (n : NodeM) (c : CRow) (es : L
   nr : ∀ nr, r.noResp = some nr →
     DestIs M ns nr.dest ((((es.filter (fun e => !e.cond.blank)).filter (fun e => isNR e.cond)).getLast?).map (·.tgt))
 
+/-! #### rows with fixed outcomes -/
+
+/-- the edges that set the first outcome (Complete / Success) of a fixed-outcome row -/
+def isSucc (K : Kind) (e : OutEdge) : Bool :=
+  if K = .enterFlow then
+    (decide (RefFlow.lower e.cond.value = "complete".toList) || decide (RefFlow.lower e.cond.value = "completed".toList))
+  else decide (RefFlow.lower e.cond.value = "success".toList)
+
+/-- the edges that set the other outcome (Expired / Failure) -/
+def isFail (K : Kind) (e : OutEdge) : Bool :=
+  if K = .enterFlow then decide (RefFlow.lower e.cond.value = "expired".toList)
+  else (e.cond.blank || decide (RefFlow.lower e.cond.value = "failure".toList))
+
+def fixKind : Kind → NodeKind
+  | .enterFlow => .enter
+  | .webhook => .webhook
+  | _ => .airtime
+
+def succName (K : Kind) : Str := if K = .enterFlow then "Complete".toList else "Success".toList
+
+/-- the (fixed) cases of such a row: test type, arguments, category -/
+def fixCases (K : Kind) (su du : Uid) : List (Str × List Str × Uid) :=
+  match K with
+  | .enterFlow => [("has_only_text".toList, ["completed".toList], su), ("has_only_text".toList, ["expired".toList], du)]
+  | .webhook => [("has_only_text".toList, ["Success".toList], su)]
+  | _ => [("has_category".toList, ["Success".toList], su)]
+
+/-- a `start_new_flow` / `call_webhook` / `transfer_airtime` row: one node performing the row's own
+action, with a switch whose cases are fixed; category `sc` (Complete / Success) follows the last
+edge naming that outcome, the default category (Expired / Failure) the last edge naming the other -/
+structure FixSim (M : Maps) (ns : Array NodeM) (n : NodeM) (c : CRow) (es : List OutEdge) (r : SwitchR) (sc : Cat) : Prop where
+  kind : n.kind = fixKind (kindOf c.row.type)
+  acts : n.actions.map (·.2) = [c.row.ownAction.getD []]
+  router : n.router = some (.sw r)
+  operand : r.operand = operandOf c.row
+  rname : r.resultName = none
+  wait : r.wait = none
+  noResp : r.noResp = none
+  cats : r.cats = [sc]
+  sname : sc.name = succName (kindOf c.row.type)
+  uidne : sc.uid ≠ r.dflt.uid
+  cases : r.cases.map (fun k => (k.type, k.args.map (·.getD []), k.catUid)) = fixCases (kindOf c.row.type) sc.uid r.dflt.uid
+  succ : DestIs M ns sc.dest (((es.filter (isSucc (kindOf c.row.type))).getLast?).map (·.tgt))
+  dflt : DestIs M ns r.dflt.dest (((es.filter (isFail (kindOf c.row.type))).getLast?).map (·.tgt))
+
+theorem isSucc_enter (e : OutEdge) : isSucc .enterFlow e = true ↔
+    (RefFlow.lower e.cond.value = "complete".toList ∨ RefFlow.lower e.cond.value = "completed".toList) := by
+  unfold isSucc
+  rw [if_pos rfl, Bool.or_eq_true, decide_eq_true_iff, decide_eq_true_iff]
+
+theorem isFail_enter (e : OutEdge) : isFail .enterFlow e = true ↔ RefFlow.lower e.cond.value = "expired".toList := by
+  unfold isFail
+  rw [if_pos rfl, decide_eq_true_iff]
+
+theorem isSucc_hook (K : Kind) (hK : K ≠ .enterFlow) (e : OutEdge) :
+    isSucc K e = true ↔ RefFlow.lower e.cond.value = "success".toList := by
+  unfold isSucc
+  rw [if_neg hK, decide_eq_true_iff]
+
+theorem isFail_hook (K : Kind) (hK : K ≠ .enterFlow) (e : OutEdge) :
+    isFail K e = true ↔ (e.cond.blank = true ∨ RefFlow.lower e.cond.value = "failure".toList) := by
+  unfold isFail
+  rw [if_neg hK, Bool.or_eq_true, decide_eq_true_iff]
+
+theorem bool_false_of_not {b : Bool} (h : ¬ b = true) : b = false := by cases b <;> simp_all
+
+def isFixedKind (K : Kind) : Prop := K = .enterFlow ∨ K = .webhook ∨ K = .airtime
+
 inductive NodeSim (M : Maps) (ns : Array NodeM) (n : NodeM) (c : CRow) (es : List OutEdge) : Prop
   | plain : kindOf c.row.type = .action → PlainSim M ns n c.row.action es → NodeSim M ns n c es
   | sw (r : SwitchR) : (kindOf c.row.type = .wait ∨ kindOf c.row.type = .splitValue ∨ kindOf c.row.type = .splitGroup) →
       SwitchSim M ns n c es r → NodeSim M ns n c es
+  | fix (r : SwitchR) (sc : Cat) : isFixedKind (kindOf c.row.type) → FixSim M ns n c es r sc → NodeSim M ns n c es
 
 theorem NodeSim.ext {M : Maps} {ns ns' : Array NodeM} (h : NExt ns ns') {n : NodeM} {c : CRow} {es : List OutEdge}
     (hs : NodeSim M ns n c es) : NodeSim M ns' n c es := by
@@ -114,6 +183,9 @@ theorem NodeSim.ext {M : Maps} {ns ns' : Array NodeM} (h : NExt ns ns') {n : Nod
     refine .sw r hk ⟨hp.kind, hp.acts, hp.router, hp.operand, hp.rname, hp.wait, hp.nrSome, hp.cases, hp.casecat,
       ?_, hp.dflt.ext h, fun nr hnr => (hp.nr nr hnr).ext h⟩
     exact hp.catd.imp (fun _ _ hd => hd.ext h)
+  | fix r sc hk hp =>
+    exact .fix r sc hk ⟨hp.kind, hp.acts, hp.router, hp.operand, hp.rname, hp.wait, hp.noResp, hp.cats, hp.sname,
+      hp.uidne, hp.cases, hp.succ.ext h, hp.dflt.ext h⟩
 
 /-- row `j` has been parsed (or is the row being parsed, its node pending) and produces a node -/
 def Valid (rows : List CRow) (pd : Bool) (kg j : Nat) (c : CRow) : Prop :=
@@ -414,21 +486,98 @@ theorem sw_test_sim (r : SwitchR) (hk : kindOf c.row.type = .wait ∨ kindOf c.r
       rw [nrs_append_other _ _ hother]
       exact (hp.nr nr hnr'').ext hext
 
+/-- an edge naming the first outcome (Complete / Success) of a fixed-outcome row -/
+theorem fix_succ_sim (r : SwitchR) (sc : Cat) (hk : isFixedKind (kindOf c.row.type))
+    (hp : FixSim M s.nodes n c (outOf st j) r sc)
+    (hs : isSucc (kindOf c.row.type) (newEdge tgt cond j) = true)
+    (hf : isFail (kindOf c.row.type) (newEdge tgt cond j) = false) :
+    wp (updSwitch (M.nOf j) fun r => setCatDestByName r (succName (kindOf c.row.type)) d) s
+      (EdgePost rows M pd kg tgt cond s st j) := by
+  unfold updSwitch
+  wp_simp [wp_getNode]
+  intro n' hn'
+  rw [hn] at hn'; injection hn' with hn'; subst hn'
+  simp only [hp.router]
+  have hfind : r.catByName (succName (kindOf c.row.type)) = some sc := by
+    unfold SwitchR.catByName SwitchR.allCats
+    rw [hp.cats]
+    simp [List.find?_cons, hp.sname]
+  unfold setCatDestByName
+  rw [hfind]
+  wp_simp [wp_setNode]
+  have hr' : r.setDest sc.uid d = { r with cats := [{ sc with dest := d }] } := by
+    unfold SwitchR.setDest SwitchR.mapCats
+    rw [hp.cats, hp.noResp]
+    have : ¬ (r.dflt.uid = sc.uid) := fun e => hp.uidne e.symm
+    simp [this]
+  rw [hr']
+  have hext : NExt s.nodes (s.nodes.setIfInBounds (M.nOf j)
+      { n with router := some (.sw { r with cats := [{ sc with dest := d }] }) }) := NExt.set hn rfl
+  refine Rel.update h (newEdge tgt cond j) rfl hj hn hc hnode
+    (n' := { n with router := some (.sw { r with cats := [{ sc with dest := d }] }) })
+    rfl htg (set_getElem?_self _ hn) (fun i hi => set_getElem?_other _ _ _ _ hi) rfl rfl rfl rfl ?_
+  refine .fix { r with cats := [{ sc with dest := d }] } { sc with dest := d } hk
+    ⟨hp.kind, hp.acts, rfl, hp.operand, hp.rname, hp.wait, hp.noResp, rfl, hp.sname,
+      hp.uidne, hp.cases, ?_, ?_⟩
+  · rw [List.filter_append]
+    simp only [List.filter_cons, hs, if_true, List.filter_nil]
+    rw [getLast?_append_singleton]
+    exact hd.ext hext
+  · rw [List.filter_append]
+    simp only [List.filter_cons, hf, Bool.false_eq_true, if_false, List.filter_nil, List.append_nil]
+    exact hp.dflt.ext hext
+
+/-- an edge naming the other outcome (Expired / Failure; for `call_webhook` / `transfer_airtime`
+also an unconditional edge) of a fixed-outcome row -/
+theorem fix_fail_sim (r : SwitchR) (sc : Cat) (hk : isFixedKind (kindOf c.row.type))
+    (hp : FixSim M s.nodes n c (outOf st j) r sc)
+    (hs : isSucc (kindOf c.row.type) (newEdge tgt cond j) = false)
+    (hf : isFail (kindOf c.row.type) (newEdge tgt cond j) = true) :
+    wp (updSwitch (M.nOf j) (setDfltM d)) s (EdgePost rows M pd kg tgt cond s st j) := by
+  unfold updSwitch setDfltM
+  wp_simp [wp_getNode]
+  intro n' hn'
+  rw [hn] at hn'; injection hn' with hn'; subst hn'
+  simp only [hp.router]
+  wp_simp [wp_setNode]
+  have hext : NExt s.nodes (s.nodes.setIfInBounds (M.nOf j) { n with router := some (.sw (r.setDflt d)) }) :=
+    NExt.set hn rfl
+  refine Rel.update h (newEdge tgt cond j) rfl hj hn hc hnode (n' := { n with router := some (.sw (r.setDflt d)) })
+    rfl htg (set_getElem?_self _ hn) (fun i hi => set_getElem?_other _ _ _ _ hi) rfl rfl rfl rfl ?_
+  refine .fix (r.setDflt d) sc hk
+    ⟨hp.kind, hp.acts, rfl, hp.operand, hp.rname, hp.wait, hp.noResp, hp.cats, hp.sname, hp.uidne, hp.cases, ?_, ?_⟩
+  · rw [List.filter_append]
+    simp only [List.filter_cons, hs, Bool.false_eq_true, if_false, List.filter_nil, List.append_nil]
+    exact hp.succ.ext hext
+  · rw [List.filter_append]
+    simp only [List.filter_cons, hf, if_true, List.filter_nil]
+    rw [getLast?_append_singleton]
+    exact hd.ext hext
+
 end
 /-! ### the single-meaning conditions, read off the reference's out-edges -/
 
 /-- `outF`: all out-edges pass 1 records for the sheet -/
+abbrev isSwitchKind (K : Kind) : Prop := K = .wait ∨ K = .splitValue ∨ K = .splitGroup
+
 structure Good (rows : List CRow) (outF : List OutEdge) : Prop where
   ok : ∀ e ∈ outF, edgeOk rows e = true
-  dist : ∀ (j : Nat) (c : CRow), rows[j]? = some c →
+  dist : ∀ (j : Nat) (c : CRow), rows[j]? = some c → isSwitchKind (kindOf c.row.type) →
     ((testsOf (kindOf c.row.type) (outF.filter (·.src = j))).map (fun e => refTest (kindOf c.row.type) e.cond)).Nodup
 
 theorem Good.nodup_prefix {rows : List CRow} {outF l : List OutEdge} (g : Good rows outF) (hl : l <+: outF)
-    (j : Nat) (c : CRow) (hc : rows[j]? = some c) :
+    (j : Nat) (c : CRow) (hc : rows[j]? = some c) (hk : isSwitchKind (kindOf c.row.type)) :
     ((testsOf (kindOf c.row.type) (l.filter (·.src = j))).map (fun e => refTest (kindOf c.row.type) e.cond)).Nodup := by
-  refine List.Nodup.sublist ?_ (g.dist j c hc)
+  refine List.Nodup.sublist ?_ (g.dist j c hc hk)
   unfold testsOf
   exact ((((hl.filter _).filter _).filter _).map _).sublist
+
+theorem blank_value {cond : Compile.Cond} (h : cond.blank = true) : cond.value = [] := by
+  unfold Compile.Cond.blank at h
+  simp only [Bool.and_eq_true, List.isEmpty_iff] at h
+  exact h.1.1.1
+
+theorem lower_eq (v : Str) : RefFlow.lower v = Compile.lower v := rfl
 
 /-- one out-edge leaving row `j` -/
 theorem addExit_sim (rows : List CRow) (outF : List OutEdge) (g : Good rows outF) (M : Maps) (pd : Bool) (kg : Nat)
@@ -445,11 +594,9 @@ theorem addExit_sim (rows : List CRow) (outF : List OutEdge) (g : Good rows outF
   -- what the single-meaning conditions say about this edge
   have hok : edgeOk rows (newEdge tgt cond j) = true :=
     g.ok _ (hpre.subset (by simp))
-  have hdist := g.nodup_prefix hpre j c hc
   have hfil : (newEdge tgt cond j :: st.out).reverse.filter (·.src = j) = outOf st j ++ [newEdge tgt cond j] := by
     simp [outOf, List.filter_append]
-  rw [hfil] at hdist
-  simp only [edgeOk, hc, Option.map_some, toRCond_blank, Bool.or_eq_true] at hok
+  simp only [edgeOk, hc, Option.map_some, toRCond_blank] at hok
   have hfuel : 2 * s.groups.size + 8 = (2 * s.groups.size + 7) + 1 := by omega
   rw [hfuel]
   unfold addExit
@@ -464,13 +611,12 @@ theorem addExit_sim (rows : List CRow) (outF : List OutEdge) (g : Good rows outF
   rw [hn] at hn'; injection hn' with hn'; subst hn'
   cases hsim with
   | plain hk hp =>
-    have he : cond.blank = true := by
-      rcases hok with hok | hok
-      · exact hok
-      · rw [hk] at hok; simp at hok
+    have he : cond.blank = true := by rw [hk] at hok; exact hok
     have hkr : n.kind ≠ NodeKind.random := by rw [hp.kind]; intro hh; cases hh
     refine ⟨fun _ => plain_edge_sim rows M pd kg d tgt cond s st j n c h hj hn hc hnode hd htg hk hp he, fun hh => absurd ⟨he, hkr⟩ hh⟩
   | sw r hk hp =>
+    have hdist := g.nodup_prefix hpre j c hc hk
+    rw [hfil] at hdist
     have hkr : n.kind ≠ NodeKind.random := by rw [hp.kind]; intro hh; cases hh
     have hke : n.kind ≠ NodeKind.enter := by rw [hp.kind]; intro hh; cases hh
     have hkw : ¬ (n.kind = NodeKind.webhook ∨ n.kind = NodeKind.airtime) := by
@@ -479,31 +625,110 @@ theorem addExit_sim (rows : List CRow) (outF : List OutEdge) (g : Good rows outF
     · exact ⟨fun _ => sw_blank_sim rows M pd kg d tgt cond s st j n c h hj hn hc hnode hd htg r hk hp he, fun hh => absurd ⟨he, hkr⟩ hh⟩
     · have he' : cond.blank = false := by simpa using he
       refine ⟨fun hh => absurd hh.1 he, fun _ => ⟨fun hh => absurd hh hke, fun _ => ⟨fun hh => absurd hh hkw, fun _ => ?_⟩⟩⟩
-      have hok' : (match some (kindOf c.row.type) with
-          | some .wait => (toRCond cond).var.isEmpty && (toRCond cond).name.isEmpty
-          | some .splitValue => !isNR (toRCond cond) && (toRCond cond).name.isEmpty
-          | some .splitGroup => !isNR (toRCond cond) && (toRCond cond).name.isEmpty
-          | _ => false) = true := by
-        rcases hok with hok | hok
-        · exact absurd hok he
-        · exact hok
+      rw [he'] at hok
       by_cases hnr : Compile.lower cond.value = "no response".toList
       · -- only a wait row can be left by a "no response" edge
         have hkwait : kindOf c.row.type = .wait := by
           rcases hk with h1 | h1 | h1
           · exact h1
-          · rw [h1] at hok'; simp [isNR_toRCond, hnr] at hok'
-          · rw [h1] at hok'; simp [isNR_toRCond, hnr] at hok'
+          · rw [h1] at hok; simp [isNR_toRCond, hnr] at hok
+          · rw [h1] at hok; simp [isNR_toRCond, hnr] at hok
         exact ⟨fun _ => sw_nr_sim rows M pd kg d tgt cond s st j n c h hj hn hc hnode hd htg r hkwait hp he' hnr,
           fun hh => absurd ⟨hp.kind, hnr⟩ hh⟩
       · refine ⟨fun hh => absurd hh.2 hnr, fun _ => ?_⟩
         have hname : cond.name = [] := by
-          rcases hk with h1 | h1 | h1 <;> rw [h1] at hok' <;>
-            simp only [Bool.and_eq_true, List.isEmpty_iff, toRCond] at hok' <;> exact hok'.2
+          rcases hk with h1 | h1 | h1 <;> rw [h1] at hok <;>
+            simp only [Bool.false_or, Bool.and_eq_true, List.isEmpty_iff, toRCond] at hok <;> exact hok.2
         have hvar : kindOf c.row.type = .wait → cond.var = [] := by
-          intro h1; rw [h1] at hok'
-          simp only [Bool.and_eq_true, List.isEmpty_iff, toRCond] at hok'; exact hok'.1
+          intro h1; rw [h1] at hok
+          simp only [Bool.false_or, Bool.and_eq_true, List.isEmpty_iff, toRCond] at hok; exact hok.1
         exact sw_test_sim rows M pd kg d tgt cond s st j n c h hj hn hc hnode hd htg r hk hp he' (fun _ => hnr) (fun _ => hnr) hvar hname hdist
+  | fix r sc hk hp =>
+    have hkr : n.kind ≠ NodeKind.random := by
+      rw [hp.kind]; rcases hk with h1 | h1 | h1 <;> rw [h1] <;> intro hh <;> cases hh
+    by_cases hent : kindOf c.row.type = .enterFlow
+    · -- start_new_flow
+      have hkind : n.kind = NodeKind.enter := by rw [hp.kind, hent]; rfl
+      have hsn : succName (kindOf c.row.type) = "Complete".toList := by rw [hent]; rfl
+      constructor
+      · intro _
+        unfold rowExitBlank
+        rw [hkind]
+        exact trivial
+      · intro _
+        refine ⟨fun _ => ?_, fun hh => absurd hkind hh⟩
+        unfold rowExitEnter
+        simp only
+        split
+        · rename_i hv
+          have hs : isSucc (kindOf c.row.type) (newEdge tgt cond j) = true := by
+            rw [hent]; exact (isSucc_enter _).mpr hv
+          have hf : isFail (kindOf c.row.type) (newEdge tgt cond j) = false := by
+            rw [hent]
+            refine bool_false_of_not (fun hh => ?_)
+            have hx : Compile.lower cond.value = "expired".toList := (isFail_enter _).mp hh
+            rcases hv with hv | hv <;> rw [hv] at hx <;> exact absurd hx (by decide)
+          have := fix_succ_sim rows M pd kg d tgt cond s st j n c h hj hn hc hnode hd htg r sc hk hp hs hf
+          rw [hsn] at this; exact this
+        · rename_i hv
+          split
+          · rename_i hx
+            have hs : isSucc (kindOf c.row.type) (newEdge tgt cond j) = false := by
+              rw [hent]
+              exact bool_false_of_not (fun hh => hv ((isSucc_enter _).mp hh))
+            have hf : isFail (kindOf c.row.type) (newEdge tgt cond j) = true := by
+              rw [hent]; exact (isFail_enter _).mpr hx
+            exact fix_fail_sim rows M pd kg d tgt cond s st j n c h hj hn hc hnode hd htg r sc hk hp hs hf
+          · exact trivial
+    · -- call_webhook / transfer_airtime
+      have hkind : n.kind = NodeKind.webhook ∨ n.kind = NodeKind.airtime := by
+        rw [hp.kind]
+        rcases hk with h1 | h1 | h1
+        · exact absurd h1 hent
+        · rw [h1]; exact .inl rfl
+        · rw [h1]; exact .inr rfl
+      have hke : n.kind ≠ NodeKind.enter := by rcases hkind with h1 | h1 <;> rw [h1] <;> intro hh <;> cases hh
+      have hkb : n.kind ≠ NodeKind.basic := by rcases hkind with h1 | h1 <;> rw [h1] <;> intro hh <;> cases hh
+      have hsn : succName (kindOf c.row.type) = "Success".toList := by unfold succName; rw [if_neg hent]
+      by_cases he : cond.blank = true
+      · refine ⟨fun _ => ?_, fun hh => absurd ⟨he, hkr⟩ hh⟩
+        have hval := blank_value he
+        have hs : isSucc (kindOf c.row.type) (newEdge tgt cond j) = false := by
+          refine bool_false_of_not (fun hh => ?_)
+          have hx : Compile.lower cond.value = "success".toList := (isSucc_hook _ hent _).mp hh
+          rw [hval] at hx
+          exact absurd hx (by decide)
+        have hf : isFail (kindOf c.row.type) (newEdge tgt cond j) = true :=
+          (isFail_hook _ hent _).mpr (.inl he)
+        have := fix_fail_sim rows M pd kg d tgt cond s st j n c h hj hn hc hnode hd htg r sc hk hp hs hf
+        unfold rowExitBlank
+        split
+        · rename_i hb; exact absurd hb hkb
+        · rename_i hb; exact absurd hb hke
+        · exact this
+      · have he' : cond.blank = false := by simpa using he
+        refine ⟨fun hh => absurd hh.1 he, fun _ => ⟨fun hh => absurd hh hke, fun _ => ⟨fun _ => ?_, fun hh => absurd hkind hh⟩⟩⟩
+        unfold rowExitHook
+        simp only
+        split
+        · rename_i hv
+          have hs : isSucc (kindOf c.row.type) (newEdge tgt cond j) = true := (isSucc_hook _ hent _).mpr hv
+          have hf : isFail (kindOf c.row.type) (newEdge tgt cond j) = false := by
+            refine bool_false_of_not (fun hh => ?_)
+            rcases (isFail_hook _ hent _).mp hh with hx | hx
+            · exact he hx
+            · have hx' : Compile.lower cond.value = "failure".toList := hx
+              rw [hv] at hx'; exact absurd hx' (by decide)
+          have := fix_succ_sim rows M pd kg d tgt cond s st j n c h hj hn hc hnode hd htg r sc hk hp hs hf
+          rw [hsn] at this; exact this
+        · rename_i hv
+          split
+          · rename_i hx
+            have hs : isSucc (kindOf c.row.type) (newEdge tgt cond j) = false :=
+              bool_false_of_not (fun hh => hv ((isSucc_hook _ hent _).mp hh))
+            have hf : isFail (kindOf c.row.type) (newEdge tgt cond j) = true := (isFail_hook _ hent _).mpr (.inr hx)
+            exact fix_fail_sim rows M pd kg d tgt cond s st j n c h hj hn hc hnode hd htg r sc hk hp hs hf
+          · exact trivial
 
 /-- one edge with destination `d` (reference target `tgt`): the compiler machine and pass 1 stay
 related -/
